@@ -152,19 +152,22 @@ func ValidateLogConfig(cfg *configpb.LogConfig) (*ValidatedLogConfig, error) {
 
 	// Validate the extended key usages list.
 	if len(cfg.ExtKeyUsages) > 0 {
+		anyEKU := false
 		for _, kuStr := range cfg.ExtKeyUsages {
 			if ku, ok := stringToKeyUsage[kuStr]; ok {
 				// If "Any" is specified, then we can ignore the entire list and
-				// just disable EKU checking.
+				// just disable EKU checking (the remaining names must still be known).
 				if ku == x509.ExtKeyUsageAny {
-					klog.Infof("%s: Found ExtKeyUsageAny, allowing all EKUs", cfg.Prefix)
-					vCfg.KeyUsages = nil
-					break
+					anyEKU = true
 				}
 				vCfg.KeyUsages = append(vCfg.KeyUsages, ku)
 			} else {
 				return nil, fmt.Errorf("unknown extended key usage: %s", kuStr)
 			}
+		}
+		if anyEKU {
+			klog.Infof("%s: Found ExtKeyUsageAny, allowing all EKUs", cfg.Prefix)
+			vCfg.KeyUsages = nil
 		}
 	}
 
